@@ -18,7 +18,7 @@ TECHNIQUE = 'runtime monitor: reference event recorder vs recorded actions (mult
 RULE = ('generated multi-function / multi-thread programs (38 shapes: loops, recursion, exceptions, generators, '
         'iterators, with, closures, classes, threads) x 0-8 tracepoints: line tracepoints on executed and '
         'never-executed lines, def lines, the same line number in another file, several tracepoints on one line '
-        '(separate triggers or merged as convert_response does), method tracepoints by name, the stage argument spelled out (with a line tracepoint also naming its function), tracepoints that are installed while the program's functions are already running, four action kinds; '
+        '(separate triggers or merged as convert_response does), method tracepoints by name, the stage argument spelled out (with a line tracepoint also naming its function), tracepoints that are installed while functions of the program are already running, four action kinds; '
         'non-trivial = at least one action expected or a tracepoint installed on a never-matching location; '
         'distinct by (shapes, tracepoint set)')
 ASSUMPTIONS = ['only events CPython delivers to the trace function are in the quantifier; the one case in which the agent '
